@@ -148,6 +148,38 @@ func vhBuild(ctx int, s []byte) vhCtx {
 		c.preOut = 1 + k
 		c.symStart = w.bitLen()
 		return vhMerge(w, s, c)
+	case ctx == 3:
+		// edge64K: a fixed block that has produced 65536-K bytes and is still open;
+		// the window continues it, so its first symbols hit the end of the 64 KiB
+		// output window (overflow carry-over fields, history slide)
+		k := verifrt.Param("K")
+		w.bits(0, 1)
+		w.bits(1, 2)
+		vbFixedSym(w, 'a')
+		produced := 1
+		target := 2*historySize - k
+		for produced+258 <= target {
+			vbFixedMatch(w, 258, 1)
+			produced += 258
+		}
+		for produced < target {
+			n := target - produced
+			if n > 258 {
+				n = 258
+			}
+			if n < 3 {
+				for ; n > 0; n-- {
+					vbFixedSym(w, 'a')
+					produced++
+				}
+				break
+			}
+			vbFixedMatch(w, n, 1)
+			produced += n
+		}
+		c.preOut = produced
+		c.symStart = w.bitLen()
+		return vhMerge(w, s, c)
 	case ctx >= 10 && ctx < 30:
 		lit, dist := vhTemplate(ctx - 10)
 		vbDynHeader(w, false, lit, dist, ctx-10 == 8 || ctx-10 == 14)
@@ -276,7 +308,17 @@ func VerifRdOracle() {
 		verifrt.Assert(vhPrefix(fout, perm.out), "C03:invented-data")
 		if strict.status == refNeedMore {
 			verifrt.Cover("truncated")
-			verifrt.Assert(fk == 2, "C03:truncated-kind")
+			if fk == 3 {
+				// CorruptInputError on an incomplete stream is right only if no
+				// continuation can be valid: ask for two more (symbolic) bytes that
+				// keep the reference inflater alive.
+				ext := verifrt.Bytes(2)
+				longer := append(append([]byte(nil), c.stream...), ext...)
+				r2 := refInflate(longer, refOpts{strict: true, maxOut: M + c.preOut + 600, symStart: c.symStart})
+				verifrt.Assert(r2.status == refCorrupt, "C03:truncated-kind")
+			} else {
+				verifrt.Assert(fk == 2, "C03:truncated-kind")
+			}
 		}
 		if strict.status == refCorrupt && perm.status == refCorrupt {
 			verifrt.Cover("corrupt")
